@@ -433,6 +433,45 @@ func ruleDoUniqueIndex(c *Ctx, r *R) {
 				continue
 			}
 			idx := call.Call.Args[len(call.Call.Args)-1]
+			// the indexes drawn from the module's own counting iterator (indexes := iterator.Counter(n); i, ok :=
+			// indexes.Next()): 0..n-1 in order by Counter's contract (C07), each under ok
+			if ex, isEx := idx.(*ssa.Extract); isEx && ex.Index == 0 {
+				if nx, isCall := ex.Tuple.(*ssa.Call); isCall && nx.Call.IsInvoke() && nx.Call.Method.Name() == "Next" {
+					fromCounter := false
+					for _, lf := range cellLeaves(nx.Call.Value, d.calls, 0) {
+						cc, isC := stripChange(lf.v).(*ssa.Call)
+						if !isC {
+							fromCounter = false
+							break
+						}
+						cal := cc.Call.StaticCallee()
+						if cal != nil && baseName(cal) == "Counter" && calleePkgPath(cal) == modPath+"/iterator" && len(cc.Call.Args) == 1 && resolveVal(argOf(cc.Call.Args[0], lf.chain)) == ssa.Value(nPar) {
+							fromCounter = true
+						} else {
+							fromCounter = false
+							break
+						}
+					}
+					underOK, one := false, false
+					for _, g := range guardsOf(call.Block()) {
+						if bv, val := g.boolVal(); val {
+							if e1, isE := bv.(*ssa.Extract); isE && e1.Tuple == ex.Tuple && e1.Index == 1 {
+								underOK = true
+							}
+						}
+					}
+					for _, gs := range deepGuardStrings(d) {
+						parts := strings.SplitN(gs, " ", 3)
+						if len(parts) == 3 && parts[1] == "==" && strings.HasPrefix(parts[2], "1:") && (strings.Contains(parts[0], "param:"+pname(pPar)) || strings.HasPrefix(parts[0], "phi")) {
+							one = true
+						}
+					}
+					if fromCounter && underOK && one {
+						okSeq = true
+					}
+				}
+				continue
+			}
 			phi, ok := idx.(*ssa.Phi)
 			if !ok {
 				continue
